@@ -143,7 +143,10 @@ def shape_str(it, cell, i, depth=0, seen=()):
         ps = []
         for p in e.fields[0].items:
             l = p.fields[0]
-            ps.append(('%s:' % l.fields[0].s if l.variant == 'Some' else '') + sub(p.fields[1]))
+            lv = l.fields[0] if l.variant == 'Some' else None
+            if isinstance(lv, Agg):
+                lv = lv.fields[0]
+            ps.append(('%s:' % lv.s if lv is not None else '') + sub(p.fields[1]))
         return 'fn(%s)->%s' % (','.join(ps), sub(e.fields[1]))
     return k
 
@@ -374,6 +377,102 @@ def render(t, depth=0):
 
 def table_factory(n):
     return TableSpec(n)
+
+
+class CallSpec:
+    """InferCtx::infer_expr on a call  _(l1 a1, .., lk ak)  built directly as arena data: every label is chosen by the solver from
+    {none, a, b} (distinct when present) and every argument is a capture hole `_` or an Int literal.  The callee is a hole too, so the
+    type the call imposes on it is read back from the table: it must be fn(l1 t1, .., lk tk) -> r with the labels written at the call,
+    Int for literals, and - with a capture hole - the call's own type must be fn(hole) -> r."""
+
+    def __init__(self, k):
+        self.k = k
+
+    def make_interp(self):
+        from . import scopes
+        it = W.interp('ide')
+        install(it); scopes.install(it)
+        self.lab = [z3.BitVec('l%d' % i, 8) for i in range(self.k)]
+        self.hole = [z3.Bool('h%d' % i) for i in range(self.k)]
+        for l in self.lab:
+            it.solver.add(z3.ULT(l, 3))
+        for i in range(self.k):
+            for j in range(i + 1, self.k):
+                it.solver.add(z3.Or(self.lab[i] == 0, self.lab[j] == 0, self.lab[i] != self.lab[j]))
+        # at most one capture hole per call (Gleam allows exactly one)
+        for i in range(self.k):
+            for j in range(i + 1, self.k):
+                it.solver.add(z3.Not(z3.And(self.hole[i], self.hole[j])))
+        return it
+
+    def run_path(self, it):
+        from . import scopes
+        k = self.k
+        labels = [it.choose([(self.lab[i] == j, o) for j, o in enumerate(LABELS)]) for i in range(k)]
+        holes = [it.choose([(self.hole[i], True), (z3.Not(self.hole[i]), False)]) for i in range(k)]
+        E = lambda variant, fields: Agg('enum', 'def::module::Expr', variant, fields)
+        exprs = [E('Hole', [])]
+        for h in holes:
+            exprs.append(E('Hole', []) if h else E('Literal', [IntV(0, 16, 0)]))
+        lab = lambda l: none() if l is None else some(scopes.smol(StrV(l)))
+        exprs.append(E('Call', [scopes.idx(0), VecV([tup(lab(labels[i]), scopes.idx(1 + i)) for i in range(k)])]))
+        bodyv = Agg('struct', 'Body', None, [scopes.ArenaV([]), scopes.ArenaV(exprs), VecV([]), none(), scopes.idx(k + 1)])
+        cell = [mk_table([])]
+        bctx = Agg('struct', 'BodyCtx', None, [scopes.ArenaMapV(), scopes.ArenaMapV(), MapV(), MapV()])
+        ctx = Agg('struct', 'InferCtx', None, [Opaque('db'), bctx, IntV(100, 32, 0), Opaque('fn_id'), Opaque('resolver'), Opaque('group'), RefV([bodyv], 0), RefV(cell, 0)])
+        r = it.run_body(body(r'^ty::infer::<impl at [^>]*>::infer_expr$'), [RefV([ctx], 0), scopes.idx(k + 1)])
+        e2t = bctx.fields[1].m
+        bad = []
+        what = '_(%s)' % ', '.join(('%s: ' % l if l else '') + ('_' if h else '1') for l, h in zip(labels, holes))
+        fr, fe = entry_of(it, cell, e2t[0].fields[0].v)
+        if fe is None or fe.variant != 'Function':
+            bad.append('C09: the callee of %s is not given a function type (%s)' % (what, shape_str(it, cell, e2t[0].fields[0].v)))
+        else:
+            ps = fe.fields[0].items
+            got = []
+            for p in ps:
+                l = p.fields[0]
+                ls = None
+                if l.variant == 'Some':
+                    x = l.fields[0]
+                    x = x.fields[0] if isinstance(x, Agg) else x
+                    ls = x.s
+                got.append(ls)
+            if got != labels:
+                bad.append('C09: the call %s requires a callee with parameter labels %s, the labels written at the call are %s' % (what, got, labels))
+            else:
+                for i, p in enumerate(ps):
+                    sh = shape_str(it, cell, p.fields[1].fields[0].v)
+                    if not holes[i] and sh != 'Int':
+                        bad.append('C09: argument %d of %s (an Int literal) gives the parameter type %s' % (i, what, sh))
+                    # the parameter must be the type of that argument expression
+                    if uf_find(it, cell, p.fields[1].fields[0].v) != uf_find(it, cell, e2t[1 + i].fields[0].v):
+                        bad.append('C09: parameter %d of the callee type of %s is not the type of argument %d' % (i, what, i))
+            ret = fe.fields[1].fields[0].v
+            res = shape_str(it, cell, r.fields[0].v)
+            if any(holes):
+                hi = holes.index(True)
+                _, ce = entry_of(it, cell, r.fields[0].v)
+                if ce is None or ce.variant != 'Function' or len(ce.fields[0].items) != 1:
+                    bad.append('C09: the capture %s must have a one-parameter function type, it has %s' % (what, res))
+                else:
+                    if uf_find(it, cell, ce.fields[0].items[0].fields[1].fields[0].v) != uf_find(it, cell, e2t[1 + hi].fields[0].v):
+                        bad.append('C09: the parameter of the capture %s is not the type of its hole' % what)
+                    if uf_find(it, cell, ce.fields[1].fields[0].v) != uf_find(it, cell, ret):
+                        bad.append('C09: the capture %s does not return the callee\'s return type' % what)
+            elif uf_find(it, cell, r.fields[0].v) != uf_find(it, cell, ret):
+                bad.append('C09: the call %s does not have the callee\'s return type' % what)
+        rec = {'cls': 'capture' if any(holes) else 'call', 'ok': True, 'sample': {'call': what, 'callee': shape_str(it, cell, e2t[0].fields[0].v)}}
+        if bad:
+            rec.update({'cls': 'violation', 'ok': False, 'why': bad[:3], 'cex': {'call': what}})
+        return rec
+
+    def on_panic(self, it, e):
+        return {'cls': 'panic:' + e.kind, 'ok': False, 'why': ['C10: inference of a call panics: %s' % e], 'cex': {'panic': str(e), 'stack': list(e.stack[-3:])}}
+
+
+def call_factory(k):
+    return CallSpec(k)
 
 
 class MoveSpec:
